@@ -917,7 +917,7 @@ func (x *Exec) rangeNext(st *State, fr *Frame, in *ssa.Next) Val {
 	cur := st.Heap[mv.Obj].(T)
 	so := cur.So
 	// nondeterministic iteration: (ok, k, v) with ok => has(k) — order and completeness are left to the loop invariant.
-	x.e.note("range over a map yields an arbitrary present key each iteration; visiting each key exactly once is not modelled")
+	x.e.note("range over a map yields an arbitrary present key each iteration, each key at most once; that every key is visited is not modelled (left to the loop invariant)")
 	ok := x.e.fresh("mapnext_ok", SBool)
 	kT := tt.At(1).Type()
 	vT := tt.At(2).Type()
